@@ -62,14 +62,15 @@ Peel(h, left) == IF left = {} THEN TRUE
 \* the outcome of a completed submission constrains the states: a job with a result is done; a missing job is either
 \* recorded as submitted (its batch died or was never accepted) or was never submitted (forced completion)
 Compatible(Js, out, s) == \A j \in Js : (out[j] # "missing") => s[j] = 2
-AllX(n) ==
-  LET Js == {Names[k] : k \in 1..n}
-      H == {h \in [Js -> SUBSET Js] : Peel(h, Js)}
-      FL == [failed : BOOLEAN, missing : BOOLEAN, successful : BOOLEAN]
-      C == {c \in H \X [Js -> Outcomes] \X FL \X [Js -> {0, 1, 2}] : Compatible(Js, c[2], c[4])}
-  IN {[jobs |-> Js, blk |-> c[1], out |-> c[2], st |-> c[4], fl |-> c[3]] : c \in C}
-
-MInit == \E n \in 1..MaxN : x \in AllX(n) /\ i = 0
+FL == [failed : BOOLEAN, missing : BOOLEAN, successful : BOOLEAN]
+\* nested quantifiers: TLC enumerates the inputs one by one instead of building the set
+MInit ==
+  /\ i = 0
+  /\ \E n \in 1..MaxN :
+       LET Js == {Names[k] : k \in 1..n} IN
+       \E h \in {hh \in [Js -> SUBSET Js] : Peel(hh, Js)} : \E o \in [Js -> Outcomes] : \E f \in FL :
+         \E st \in {ss \in [Js -> {0, 1, 2}] : Compatible(Js, o, ss)} :
+           x = [jobs |-> Js, blk |-> h, out |-> o, st |-> st, fl |-> f]
 
 \* the properties of the computation, over (x, sel = Selected(x), rr = Rerun(x)) so that TLC computes the closure once
 \* what the command is for: exactly the selected jobs and everything downstream of them
